@@ -347,9 +347,31 @@ def record_pair(make_obj, is_manager, name, budget, chunks, util_chunks, clf, ex
     bound, w = bound_of(mgr) if mgr is not None else ("none", 1)
     B = [min(64, int(math.ceil(budget * 64 - 1e-12))), 64]
     base = {"B": B, "W": w, "bound": bound}
-    t_b = dict(base, id="%s/%s/plain" % (name, tag), twin=[], events=ev_b,
+    # the same stream one instance at a time (for the subjects whose decisions are a function of the instances seen
+    # so far, not of the chunking: every manager, the baselines, the strategies that decide with one manager call)
+    single = []
+    base_name = name.split("+")[0].split("(")[0]
+    # (not claimed for the managers that decide with normal deviates - their generator is advanced per chunk - and
+    #  for the quantile filter, whose simulated history inside a chunk is an approximation of the committed one)
+    full = str(concrete.get("object", name))          # (strategy+manager when an explicit manager is used)
+    mgr_name = full.split("+")[1].split("(")[0] if "+" in full else None
+    # (and only for decisions without random draws, plus the random baseline, whose draws are one per instance; the
+    #  chunk invariance of the randomised managers is checked in the exact regime, where the draws are aligned)
+    chunk_free = ("FixedUncertaintyBudgetManager", "VariableUncertaintyBudgetManager")
+    if (not prologue) and "(rbf)" not in name and (
+            (is_manager and base_name in chunk_free)
+            or base_name in ("StreamRandomSampling", "PeriodicSampling")
+            or (base_name in ("FixedUncertainty", "VariableUncertainty")
+                and (mgr_name is None or mgr_name in chunk_free))):
+        one_c = [c[i:i + 1] for c in chunks for i in range(len(c))]
+        one_u = [u[i:i + 1] for u in util_chunks for i in range(len(u))]
+        ev_s, _, _ = run(make_obj, is_manager, name, one_c, one_u, clf, None, Ids(), other, False)
+        ups = [e for e in ev_s if e["ev"] == "Update"]
+        if len(ups) == len(one_c):
+            single = [1 if e["q"] else 0 for e in ups]
+    t_b = dict(base, id="%s/%s/plain" % (name, tag), twin=[], events=ev_b, single=single,
                concrete=dict(concrete, extra_queries=None))
-    t_a = dict(base, id="%s/%s/extra-queries" % (name, tag), twin=steps_b, events=ev_a,
+    t_a = dict(base, id="%s/%s/extra-queries" % (name, tag), twin=steps_b, events=ev_a, single=[],
                concrete=dict(concrete, extra_queries=extra))
     return t_b, t_a
 
@@ -386,7 +408,7 @@ def record_reconfigured(make_obj, is_manager, name, b1, b2, n1, n2, k, d, seed, 
         events.append({"ev": "Raised", "exc": "%s: %s" % (type(ex).__name__, str(ex)[:200])})
     mgr = obj if (is_manager or name in BASELINES) else getattr(obj, "budget_manager_", None)
     bound, w = bound_of(mgr) if mgr is not None else ("none", 1)
-    return dict(B=[min(64, int(math.ceil(b1 * 64 - 1e-12))), 64], W=w, bound=bound, twin=[], events=events,
+    return dict(B=[min(64, int(math.ceil(b1 * 64 - 1e-12))), 64], W=w, bound=bound, twin=[], single=[], events=events,
                 id="%s/%s/reconfigured" % (name, tag),
                 concrete={"object": name, "is_manager": is_manager, "budget": b1, "then_set_params_budget": b2,
                           "instances_before": n1, "instances_after": n2, "chunk_size": k, "n_features": d,
